@@ -12,8 +12,10 @@ import (
 	"fmt"
 	"sort"
 	"strings"
+	"syscall"
 	"time"
 
+	"github.com/v-byte-cpu/sx/zzvenv"
 	"verif/vs/drv"
 )
 
@@ -27,16 +29,20 @@ func verifC08CLI(c *drv.Ctx) {
 		files map[string]string
 		stdin string
 		want  map[string]int // ip:port -> probes (= records when every probe is positive)
+		// failOut > 0: the write number failOut-1 to standard output fails (once) with ENOSPC; every
+		// queue of the program is scaled down to one slot, so a logger that stops consuming shows
+		failOut int
+		plain   bool // plain-text output instead of --json
 	}
 	pairs3 := `{"ip":"10.0.1.1","port":9200}` + "\n" + `{"ip":"10.0.1.1","port":9200}` + "\n" + `{"ip":"10.0.1.2","port":9200}` + "\n" + `{"ip":"10.0.1.1","port":9200}` + "\n"
 	addrs := `{"ip":"10.0.1.1"}` + "\n" + `{"ip":"10.0.1.1"}` + "\n"
 	cases := []tc{
-		{"pairs file listing a target three times", []string{"-f", "{DIR}/t.jsonl"}, map[string]string{"t.jsonl": pairs3}, "", map[string]int{"10.0.1.1:9200": 3, "10.0.1.2:9200": 1}},
-		{"overlapping port ranges", []string{"-p", "80,80-81", "10.0.1.0/31"}, nil, "", map[string]int{"10.0.1.0:80": 2, "10.0.1.0:81": 1, "10.0.1.1:80": 2, "10.0.1.1:81": 1}},
-		{"address file with a duplicate x 2 ports", []string{"-p", "1-2", "-f", "{DIR}/a.jsonl"}, map[string]string{"a.jsonl": addrs}, "", map[string]int{"10.0.1.1:1": 2, "10.0.1.1:2": 2}},
-		{"addresses on stdin with a duplicate", []string{"-p", "7", "-f", "-"}, nil, addrs, map[string]int{"10.0.1.1:7": 2}},
-		{"plain subnet, one worker", []string{"-p", "5", "-w", "1", "10.0.1.0/30"}, nil, "", map[string]int{"10.0.1.0:5": 1, "10.0.1.1:5": 1, "10.0.1.2:5": 1, "10.0.1.3:5": 1}},
-		{"plain subnet, 1000 workers", []string{"-p", "5-6", "-w", "1000", "10.0.1.0/31"}, nil, "", map[string]int{"10.0.1.0:5": 1, "10.0.1.1:5": 1, "10.0.1.0:6": 1, "10.0.1.1:6": 1}},
+		{"pairs file listing a target three times", []string{"-f", "{DIR}/t.jsonl"}, map[string]string{"t.jsonl": pairs3}, "", map[string]int{"10.0.1.1:9200": 3, "10.0.1.2:9200": 1}, 0, false},
+		{"overlapping port ranges", []string{"-p", "80,80-81", "10.0.1.0/31"}, nil, "", map[string]int{"10.0.1.0:80": 2, "10.0.1.0:81": 1, "10.0.1.1:80": 2, "10.0.1.1:81": 1}, 0, false},
+		{"address file with a duplicate x 2 ports", []string{"-p", "1-2", "-f", "{DIR}/a.jsonl"}, map[string]string{"a.jsonl": addrs}, "", map[string]int{"10.0.1.1:1": 2, "10.0.1.1:2": 2}, 0, false},
+		{"addresses on stdin with a duplicate", []string{"-p", "7", "-f", "-"}, nil, addrs, map[string]int{"10.0.1.1:7": 2}, 0, false},
+		{"plain subnet, one worker", []string{"-p", "5", "-w", "1", "10.0.1.0/30"}, nil, "", map[string]int{"10.0.1.0:5": 1, "10.0.1.1:5": 1, "10.0.1.2:5": 1, "10.0.1.3:5": 1}, 0, false},
+		{"plain subnet, 1000 workers", []string{"-p", "5-6", "-w", "1000", "10.0.1.0/31"}, nil, "", map[string]int{"10.0.1.0:5": 1, "10.0.1.1:5": 1, "10.0.1.0:6": 1, "10.0.1.1:6": 1}, 0, false},
 	}
 	// 512 targets, 100 workers, the first probe answered only after a second, the others after a
 	// millisecond: hundreds of requests are generated and finished while one is still in flight
@@ -44,7 +50,15 @@ func verifC08CLI(c *drv.Ctx) {
 	for i := 0; i < 512; i++ {
 		many[fmt.Sprintf("10.0.%d.%d:5", 2+i/256, i%256)] = 1
 	}
-	cases = append(cases, tc{"512 targets, 100 workers, one slow service", []string{"-p", "5", "-w", "100", "10.0.2.0/23"}, nil, "", many})
+	cases = append(cases, tc{"512 targets, 100 workers, one slow service", []string{"-p", "5", "-w", "100", "10.0.2.0/23"}, nil, "", many, 0, false})
+	eight := map[string]int{}
+	for i := 0; i < 8; i++ {
+		eight[fmt.Sprintf("10.0.1.%d:5", i)] = 1
+	}
+	for _, nth := range []int{1, 3} {
+		cases = append(cases, tc{name: fmt.Sprintf("8 targets, write %d to stdout fails once (ENOSPC), queues of one slot", nth), args: []string{"-p", "5", "-w", "2", "10.0.1.0/29"}, want: eight, failOut: nth})
+		cases = append(cases, tc{name: fmt.Sprintf("8 targets, plain output, write %d to stdout fails once (ENOSPC), queues of one slot", nth), args: []string{"-p", "5", "-w", "2", "10.0.1.0/29"}, want: eight, failOut: nth, plain: true})
+	}
 	c.R.Rule = "the three application-scan commands (socks, docker, elastic) end to end with every probe positive, for target specifications that denote a target more than once (pairs file with repeats, overlapping port ranges, address files with repeats, stdin) and for 1 and 1000 workers: " +
 		"the probes seen by the recording scanner = the specification with multiplicity, and stdout = exactly one JSON record per probe. non-trivial = case"
 	idx := 0
@@ -54,7 +68,11 @@ func verifC08CLI(c *drv.Ctx) {
 			if !c.Mine(idx) || c.Expired() {
 				continue
 			}
-			sc := &vE2ESpec{Args: append(append([]string{cmd, "--json"}, k.args...)), Files: k.files, Stdin: k.stdin, NumCPU: 2, Positive: func(string, uint16) bool { return true }}
+			first := []string{cmd, "--json"}
+			if k.plain {
+				first = []string{cmd}
+			}
+			sc := &vE2ESpec{Args: append(first, k.args...), Files: k.files, Stdin: k.stdin, NumCPU: 2, Positive: func(string, uint16) bool { return true }}
 			if len(k.want) > 100 {
 				sc.Horizon = 20000000
 				sc.ProbeDelay = func(_ string, _ uint16, nth int) time.Duration {
@@ -62,6 +80,21 @@ func verifC08CLI(c *drv.Ctx) {
 						return time.Second
 					}
 					return time.Millisecond
+				}
+			}
+			var lostLine string
+			if k.failOut > 0 {
+				sc.CapMap = func(int) int { return 1 }
+				nth := k.failOut - 1
+				sc.World = func(w *zzvenv.World) {
+					vDefaultWorld(w)
+					w.StdoutErr = func(n int, p []byte) error {
+						if n == nth {
+							lostLine = string(p)
+							return syscall.ENOSPC
+						}
+						return nil
+					}
 				}
 			}
 			run, x := vE2EOnce(sc)
@@ -97,6 +130,15 @@ func verifC08CLI(c *drv.Ctx) {
 			for _, l := range lines {
 				var ip string
 				var port int
+				if k.plain {
+					var kind string
+					if n, _ := fmt.Sscanf(l, "%s %s %d", &kind, &ip, &port); n != 3 || kind != cmd {
+						bad = l
+						break
+					}
+					recs[fmt.Sprintf("%s:%d", ip, port)]++
+					continue
+				}
 				i := strings.Index(l, `"ip":"`)
 				j := strings.Index(l, `"port":`)
 				if !strings.HasPrefix(l, "{") || i < 0 || j < 0 {
@@ -110,6 +152,28 @@ func verifC08CLI(c *drv.Ctx) {
 			}
 			if bad != "" {
 				c.Fail(key("record"), fmt.Sprintf("%s: output line is not a record: %q", name, bad), rep)
+				continue
+			}
+			if k.failOut > 0 {
+				// the record whose write failed is lost (and only that one); the failure is reported
+				lost := 0
+				for t, n := range k.want {
+					if recs[t] == n-1 && (strings.Contains(lostLine, `"ip":"`+strings.Split(t, ":")[0]+`"`) || strings.Contains(lostLine, " "+strings.Split(t, ":")[0]+" ")) {
+						recs[t]++
+						lost++
+					}
+				}
+				errs := run.vErrRecords()
+				if d := c08diff(recs, k.want); d != "" || lost != 1 {
+					c.Fail(key("records-after-write-error"), fmt.Sprintf("%s: the write of %q failed once with ENOSPC; every other probe's record is still due (later writes succeed); records differ: %s (stdout %q)", name, lostLine, d, lines), rep)
+					continue
+				}
+				// (whether the failed write is reported is not part of the property: the JSON writer does not)
+				if k.plain && (len(errs) != 1 || !strings.Contains(errs[0], "no space left")) {
+					c.Fail(key("write-error-report"), fmt.Sprintf("%s: one write to stdout failed with ENOSPC: the plain writer hands the failure to the logger, one error record is due, got %q", name, errs), rep)
+					continue
+				}
+				c.Outcome(fmt.Sprintf("%s/%d/write-error", cmd, len(lines)))
 				continue
 			}
 			if d := c08diff(recs, k.want); d != "" {
